@@ -207,6 +207,14 @@ pub fn enabled<P: Proto>(w: &ClientWorld<P>, cfg: &Cfg) -> Vec<(CAct, u8)> {
                         if w.mon.inbound_unacked_len() > 0 {
                             v.push((CAct::U(UReq::Ack), 0));
                         }
+                        if w.mon.inbound_unacked_len() > 1 {
+                            // the user acknowledges the newer publish first
+                            v.push((CAct::U(UReq::AckSecond), 0));
+                        }
+                        // a second inbound publish of each kind, so that two can be open
+                        v.push((CAct::B(inbound(1, 3, 702)), 0));
+                        v.push((CAct::B(inbound(2, 4, 703)), 0));
+                        v.push((CAct::B(Pk::PubRel(4, 0)), 0));
                         if cfg.v5 {
                             v.push((CAct::B(Pk::Disconnect), 1));
                         }
